@@ -388,7 +388,7 @@ def check(tier: str) -> int:
         finally:
             r.cleanup()
     depth = 3 if tier == "thorough" else 2
-    r = tlc.run("LiquidInherit", tlc.cfg_text(constants={"MaxDepth": str(depth), "Focus": '"async-inherit"'}, invariants=["Export"]),
+    r = tlc.run("LiquidInherit", tlc.cfg_text(constants={"MaxDepth": str(depth), "Focus": '"async-inherit"', "AutoEsc": "FALSE"}, invariants=["Export"]),
                 tag="async-inherit", extra_files={"concrete.json": gen.CONCRETE}, timeout=7000)
     try:
         if r.error:
